@@ -291,9 +291,10 @@ def execute(check, tier, seed, budget_s=None, out=sys.stdout):
                 else:
                     out.write("NOTE: witness %s of open finding %s/%s no longer violates\n" % (ent["witness"], ent["property"], ent["class"]))
         for key, (f, rec, run) in sorted(viol.items()):
+            ritem = check.focus(rec["item"], run) if hasattr(check, "focus") else rec["item"]
             rp = {"property": f["property"], "class": f["class"], "detail": f["detail"], "path": f["path"], "seed": seed, "tier": tier,
-                  "item": rec["item"], "run": {k: run.get(k) for k in ("plan", "outcome", "log_hash", "sig") if k in run}}
-            again = runner(sim, rec["item"])
+                  "item": ritem, "run": {k: run.get(k) for k in ("plan", "outcome", "log_hash", "sig") if k in run}}
+            again = runner(sim, ritem)
             if not again.get("ok"):
                 out.write("HARNESS-ERROR %s\n" % again.get("error"))
                 return 2
@@ -303,7 +304,7 @@ def execute(check, tier, seed, budget_s=None, out=sys.stdout):
                 return 2
             if hasattr(check, "minimise"):
                 try:
-                    rp["item"] = check.minimise(sim, rec["item"], f, time.time() + 25)
+                    rp["item"] = check.minimise(sim, ritem, f, time.time() + 25)
                 except build.HarnessError:
                     pass
             os.makedirs(os.path.join(REPLAYS, check.prop), exist_ok=True)
